@@ -142,7 +142,7 @@ pub fn generate(sink: &mut Sink, rng: &mut Rng, n: u64) {
     let ro_pool: &[(&str, bool)] = &[
         ("e:.61", false), ("e:.61 .62", false), ("e:.6f626a", false), ("e:.6f626a .78", false), ("e:.617272", false),
         ("e:.617272 #1", false), ("e:.617272 #0", false), ("m:.6d", false), ("m:.6d .6b", false), ("e:.6e", false), ("e:.73", false),
-        ("e:.6f7574", false), ("e:.6f626a .79", false),
+        ("e:.6f7574", false), ("e:.6f626a .79", false), ("e:.657272", false), ("m:.6d .65", false), ("m:.61", false), ("e:.6d", false),
     ];
     let mut accepted = 0u64;
     let mut tried = 0u64;
